@@ -11,6 +11,11 @@
 (*     square-rooted quantities are carried squared (rmse2, cvrmse2, ...)  *)
 (*  in.kind = "gate":  [cv, pn] each in {"none", "low", "mid", "high", "eqown"} *)
 (*     out = [res, poor]   the hourly poor-fit decision                    *)
+(*  in.kind = "calstats": [obs, pred, order]  the CalTRACK hourly           *)
+(*        ModelMetrics(observed series, predicted series); a cell with     *)
+(*        f = FALSE is a timestamp the series has no value for; order:     *)
+(*        the predicted series is handed over in time order or reversed    *)
+(*     out = [res, n, rmse2]                                               *)
 (*  in.kind = "tq": [conf, tail, dof]  ReportingMetrics(confidence_level,   *)
 (*        t_tail) on a baseline with `dof` degrees of freedom              *)
 (*     out = [res, fl, ce]  floor / ceiling of 1000 x t_stat               *)
@@ -99,6 +104,12 @@ Clauses(in, out) ==
          <<"UndefinedWhenDenominatorNotPositive_nmae", out.res = "ok" => (e.nmae.u => out.m.nmae.u)>>,
          <<"UndefinedWhenDenominatorNotPositive_nmbe", out.res = "ok" => (e.nmbe.u => out.m.nmbe.u)>>,
          <<"SignOfAutocorrelation", (out.res = "ok" /\ NPrimeDefined(in)) => out.rhosign = RhoSign(in)>> >>
+    [] in.kind = "calstats" ->
+      \* the CalTRACK hourly ModelMetrics class: observed and predicted are two series of their own; the pairs are the timestamps both
+      \* carry a value for (whatever the number and the order of the rows of either series)
+      << <<"MetricsReturn", out.res = "ok">>,
+         <<"PairsAreMatchedByTimestamp", out.res = "ok" => out.n = N(in)>>,
+         <<"StatisticsAreTheTextbookFormulas", out.res = "ok" => Agrees([u |-> FALSE, v |-> Rmse2(in)], out.rmse2)>> >>
     [] in.kind = "gate" ->
       << <<"GateReturns", out.res = "ok">>,
          <<"HourlyPoorFitExactlyWhenBothThresholdsMissed", out.res = "ok" => (out.poor <=> HourlyPoor(in.cv, in.pn))>> >>
